@@ -31,6 +31,7 @@
   `ne_of_pubkey` (unconditional now: different keys come from different pairs).
 -/
 import EnrVerif.Proofs.SchemeLemmas
+import EnrVerif.Proofs.Examples
 
 namespace EnrVerif
 
@@ -343,6 +344,90 @@ example : ({ seq := 1, nodeId := [1], content := [], sig := [2] } : Record).eqv
     { seq := 1, nodeId := [9], content := [], sig := [2] } = false := by decide
 example : ({ seq := 1, nodeId := [1], content := [], sig := [2] } : Record).eqv
     { seq := 1, nodeId := [1], content := [], sig := [] } = false := by decide
+
+/-! ### non-vacuity: the theorems with a validity hypothesis, on concrete valid records
+
+`r0`, `r1` (= `r0` after `set_udp4(30303)`), `r2` (= `r1` re-keyed to `pk1`) and `rMax` are the valid
+records of the toy scheme `tinyS` (`Proofs/ToyScheme.lean`). -/
+
+example : ∃ r', decode tinyS r0.encode = .ok (r', []) ∧ r0.eqv r' = true ∧ r' = r0 :=
+  eqv_redecode tinyS r0 r0_valid
+
+/-- the same, with the decoder run on the literal bytes of `r0` -/
+example : decode tinyS [209, 132, 1, 2, 3, 13, 1, 130, 105, 100, 130, 118, 52, 116, 131, 1, 2, 3] =
+    .ok (r0, []) ∧ r0.eqv r0 = true := ⟨r0Bytes_decodes, by decide⟩
+
+/-- `eqv_iff_encode` in both directions: `r0 ≠ r1`, so their encodings differ; a hand-written copy of
+    `r0` has the same encoding, so it is `==` -/
+example : r0.encode ≠ r1.encode := fun h =>
+  absurd ((eqv_iff_encode tinyS r0 r1 r0_valid r1_valid).2 h) (by decide)
+
+example : r0.eqv ⟨1, [1, 2, 3], [(kId, [130, 118, 52]), (kT, [131, 1, 2, 3])], [1, 2, 3, 13]⟩ = true :=
+  (eqv_iff_encode tinyS r0 _ r0_valid r0_valid).2 rfl
+
+/-- equal records hash equally; `r0` and `r1` differ in a hashed field -/
+example : r0.hashFeed = (1, [1, 2, 3], [1, 2, 3, 13]) ∧ r1.hashFeed = (2, [1, 2, 3], [1, 2, 3, 20]) := by
+  decide
+
+/-- `ne_of_pubkey`: `r1` carries `pk0`, its re-keyed successor `r2` carries `pk1` -/
+example : r1.eqv r2 = false :=
+  ne_of_pubkey tinyS r1 r2 pk0 pk1
+    (step_ok_facts tinyS_lawful r0_valid call1_ok step1_ok).2.1
+    (step_ok_facts tinyS_lawful r1_valid (call2_ok r1) step2_ok).2.1
+    (fun h => absurd (congrArg Subtype.val h) (by decide))
+
+/-- `compareContent_iff_valid`: `r0` against itself with another signature, against `r1`, and
+    against `rMax` (same pairs, other sequence number) -/
+example : r0.compareContent { r0 with sig := [9] } = true :=
+  (compareContent_ignores_sig r0 r0 r0.sig [9] r0.nodeId r0.nodeId).trans
+    ((compareContent_iff_valid tinyS r0 r0 r0_valid r0_valid).2 ⟨rfl, rfl⟩)
+
+example : r0.compareContent r1 = false ∧ r0.compareContent rMax = false := by
+  constructor
+  · cases h : r0.compareContent r1 with
+    | false => rfl
+    | true => exact absurd ((compareContent_iff_valid tinyS r0 r1 r0_valid r1_valid).1 h).1 (by decide)
+  · cases h : r0.compareContent rMax with
+    | false => rfl
+    | true => exact absurd ((compareContent_iff_valid tinyS r0 rMax r0_valid rMax_valid).1 h).1 (by decide)
+
+/-! `eqvLegacy_same_content` / `eqvLegacy_eq_eqv` need a scheme with `SigBinds` and valid records of it
+at the same time: two valid records of `echoS` (the signature is the signed payload). -/
+
+set_option maxRecDepth 100000 in
+example :
+    let c : Content := [(kId, encBytes vV4), (kToy, encBytes [1, 2, 3, 4])]
+    let a : Record := ⟨1, [1, 2, 3, 4], c, encList (encUint 1 ++ Record.pairsBytes c)⟩
+    let b : Record := ⟨2, [1, 2, 3, 4], c, encList (encUint 2 ++ Record.pairsBytes c)⟩
+    Valid echoS a ∧ Valid echoS b ∧ eqvLegacy a a = a.eqv a ∧ eqvLegacy a b = a.eqv b ∧
+      eqvLegacy a b = false := by
+  intro c a b
+  have hc : ContentOK c := by
+    refine ⟨by decide, ?_⟩
+    intro k v hm
+    simp only [c, List.mem_cons, Prod.mk.injEq, List.not_mem_nil, or_false] at hm
+    rcases hm with ⟨rfl, rfl⟩ | ⟨rfl, rfl⟩
+    · exact ⟨by decide, by unfold ValueOK; rw [if_pos rfl]⟩
+    · refine ⟨by decide, ?_⟩
+      unfold ValueOK
+      rw [if_neg (by decide), if_neg (by decide), if_neg (by decide), if_neg (by decide),
+        if_neg (by decide)]
+      exact Or.inl ⟨[1, 2, 3, 4], by decide, rfl⟩
+  have hpk : echoS.enrToPublic c = .ok [1, 2, 3, 4] := by
+    show toyEnrToPublic c = Except.ok ([1, 2, 3, 4] : Bytes)
+    decide
+  have ha : Valid echoS a :=
+    ⟨by decide, by decide, hc, by decide, by decide, [1, 2, 3, 4], hpk, rfl, by decide⟩
+  have hb : Valid echoS b :=
+    ⟨by decide, by decide, hc, by decide, by decide, [1, 2, 3, 4], hpk, rfl, by decide⟩
+  have hsb : SigBinds echoS := by
+    intro pk m1 m2 sig h1 h2
+    have e1 : sig = m1 := of_decide_eq_true h1
+    have e2 : sig = m2 := of_decide_eq_true h2
+    rw [← e1, ← e2]
+  have hi : ∀ x y, HashInj echoS x y := fun _ _ _ _ _ _ h => h
+  exact ⟨ha, hb, eqvLegacy_eq_eqv echoS a a ha ha hsb (hi a a),
+    eqvLegacy_eq_eqv echoS a b ha hb hsb (hi a b), by decide⟩
 
 end EnrVerif
 
